@@ -27,6 +27,8 @@ structure Origin where
 
 inductive Op where
   | req (method path : Bytes) (headers : List (Bytes × Bytes))
+  /-- the same request, but the client goes away after half of the body has arrived -/
+  | abort (method path : Bytes) (headers : List (Bytes × Bytes))
   | tick (dt : Nat)
   | origin (o : Origin)
   deriving Repr
@@ -52,11 +54,11 @@ def pOp : P Op := do
     let cl0 ← pBool
     pure (.origin { path := p, status := st, headers := hs, body := b, chunked := ch,
                     readErrAt := if re < 0 then none else some re.toNat, cond := cond, cl0 := cl0 })
-  else if k = "R" then
+  else if k = "R" ∨ k = "A" then
     let m ← pBytes
     let p ← pBytes
     let hs ← pList pPair
-    pure (.req m p hs)
+    pure (if k = "R" then .req m p hs else .abort m p hs)
   else throw s!"bad op {k}"
 
 /-- what the harness recorded for one request -/
@@ -193,7 +195,10 @@ def judge (force : Nat) (st : St) (method path : Bytes) (hs : List (Bytes × Byt
         (if mirrors then (if got304 then "fill:mirror-after-304" else "fill:mirror") else if staleIfError then "fill:stale-if-error" else if conditional then "fill:conditional" else "fill:other")
     else
       -- served without origin contact
-      if conditional ∨ !cacheMethod then add st1 [] [] "hit:conditional-or-method" else
+      if !cacheMethod then
+        -- C10: only GET and HEAD are ever answered from the cache
+        add st1 ["bad:C10:request-with-a-method-other-than-GET-or-HEAD-answered-without-the-origin"] [] "hit:uncacheable-method" else
+      if conditional then add st1 [] [] "hit:conditional" else
       match src? with
       | none =>
         if o.body == [] ∧ (method == b!"HEAD" ∨ (st.all.filter (·.path == path)).any (·.body == [])) then add st1 [] [] "hit:empty-body"
@@ -242,7 +247,7 @@ def hSysC : Handler := fun impl => do
   let force ← pNat
   let ops ← pList pOp
   -- the implementation's observations, one per request op
-  let nreq := (ops.filter fun o => match o with | .req .. => true | _ => false).length
+  let nreq := (ops.filter fun o => match o with | .req .. => true | .abort .. => true | _ => false).length
   let obs := match run (pTimes pObs nreq) impl with | .ok l => l | .error _ => []
   if obs.length ≠ nreq then return { model := " ".intercalate impl, oracle := "na", label := "unparsed" }
   let (st, _) := ops.foldl (fun (acc : St × List Obs) op =>
@@ -256,7 +261,20 @@ def hSysC : Handler := fun impl => do
         | o :: rest =>
           let conv := converse force st m p hs o
           let st' := judge force st m p hs o
-          ({ st' with bad := st'.bad ++ conv }, rest)) (({} : St), obs)
+          ({ st' with bad := st'.bad ++ conv }, rest)
+      | .abort m p hs =>
+        -- the client went away mid-body: what it saw is not judged; if the origin was contacted the
+        -- fetch is a FAILED one (the origin's body ended with the cancelled context's error half way)
+        match os with
+        | [] => (st, [])
+        | o :: rest =>
+          let st' := match st.cur.find? (·.path == p), o.contacts with
+            | some c, _ + 1 =>
+              { st with fetches := st.fetches ++ [{ key := keyOf m p hs, origin := { c with readErrAt := some (c.body.length / 2) }, time := st.now,
+                                                    reqAuth := (valuesCI hs b!"authorization").any (· ≠ []), reqOrigin := (valuesCI hs b!"origin") ≠ [], method := m }],
+                        labels := st.labels ++ ["aborted-fetch"] }
+            | _, _ => { st with labels := st.labels ++ ["aborted"] }
+          (st', rest)) (({} : St), obs)
   let oracle := if st.bad.isEmpty then "ok" else ",".intercalate st.bad.eraseDups
   let cls := if st.cls.isEmpty then "-" else ",".intercalate st.cls.eraseDups
   let label := "+".intercalate (st.labels.eraseDups.take 4)
